@@ -1,5 +1,6 @@
 """C17 -- PRINCE-LING emits the ruleset's words most-probable-first, up to the size asked."""
 from pyvc.runner import Prop, Bounded, script_replay
+from pyvc import effects
 import contracts.guesser_core as gc
 import contracts.guesser_expand as ge
 import contracts.guesser_session as gs
@@ -18,6 +19,7 @@ PROP = Prop(
                M + '_find_prob', M + '_are_you_my_child', M + 'find_children', M + 'initalize_base_structures', Q + 'PcfgQueue.insert_queue'],
     lemmas=lambda: gl.queue_step.lemmas() + gs.flat_ext.lemmas() + ge.catvals_split.lemmas() + gl.all_c01_lemmas() + gl.all_c02_lemmas(),
     setup=gp.install,
+    effects=effects.state_frame_for('C17', ['lib_guesser/pcfg_grammar.py', 'lib_guesser/priority_queue.py', 'lib_guesser/grammar_io.py', 'lib_princeling/wordlist_generation.py']),
     level='other',
     replay=script_replay('replay/cli.py', default_fn='C17'),
     bounded=[Bounded('C17.bounded.cli', 'replay/cli.py', args=['--fn', 'C17'],
